@@ -92,7 +92,10 @@ def cases(tier, seed):
     base += designs.misc_cases() + names_cases() + designs.carg_cases((1, 3))
     base += designs.expr_cases(20 if tier == 'quick' else 400, seed + 41, n=7, maxw=6, ops=['+', '-', '*', '&', '|', '^', '~', '<', '>', '=', 'x', 'c', 's', 'trunc', 'const'])
     base += [{'fam': 'MEM', 'aw': 2, 'bw': 4, 'nr': 2, 'nw': 2}, {'fam': 'MEM', 'aw': 3, 'bw': 70, 'nr': 1, 'nw': 1, 'read_own_write': True},
-             {'fam': 'ROM', 'aw': 3, 'bw': 5, 'data': 'list', 'nr': 2}, {'fam': 'ROM', 'aw': 2, 'bw': 40, 'data': 'func', 'nr': 1}]
+             {'fam': 'ROM', 'aw': 3, 'bw': 5, 'data': 'list', 'nr': 2}, {'fam': 'ROM', 'aw': 2, 'bw': 40, 'data': 'func', 'nr': 1},
+             {'fam': 'ROM', 'aw': 3, 'bw': 5, 'data': 'short_list', 'missing': 3, 'pad': True, 'nr': 1},
+             {'fam': 'ROM', 'aw': 3, 'bw': 5, 'data': 'sparse_dict', 'pad': True, 'nr': 1},
+             {'fam': 'ROM', 'aw': 3, 'bw': 5, 'data': 'dict', 'nr': 1}, {'fam': 'MISC', 'kind': 'rom_sparse_pad'}]
     base.append({'fam': 'BIGCONST'})
     for i, c in enumerate(base):
         for ar in (RESETS if (c['fam'] in ('NAMES', 'SEQ', 'MISC') or c.get('dest') == 'reg') else [RESETS[i % 3]]):
@@ -103,6 +106,13 @@ def cases(tier, seed):
     for i, c in enumerate(tb_base):
         for simk in ('sim', 'fast', 'compiled'):
             out.append(dict(c, k='testbench', K=2, add_reset=RESETS[i % 3], sim=simk, init=['zero', 'ones', 'alt'][i % 3], wb=WB[(len(out)) % 3]))
+    # memories with initial contents at both ends of the address space, small and large (the emitter may treat big memories apart)
+    for aw in (1, 5, 16, 17):
+        for j, simk in enumerate(('sim', 'fast', 'compiled')):
+            if aw >= 16 and tier == 'quick' and j != aw % 3:
+                continue
+            out.append({'fam': 'MEM', 'aw': aw, 'bw': 4, 'nr': 1, 'nw': 1, 'k': 'testbench', 'K': 2, 'add_reset': False, 'sim': simk,
+                        'init': ('ones', 'alt')[aw % 2], 'wb': 'same'})
     return out
 
 
@@ -478,7 +488,17 @@ def replay(cex):
         ins = {mp[w.name]: cv.inp(w.name, t, w.bitwidth) for w in block.wirevector_subset(pyrtl.Input)}
         env, regs, vmems = mod.step(ins, regs, vmems, rst=z3.BitVecVal(0, 1) if mod.has_rst else None)
         for w in block.wirevector_subset(pyrtl.Output):
-            got = z3.simplify(env[mp[w.name]]).as_long()
-            if got != trace[w.name][t]:
-                bad.append('cycle %d: Verilog %s = %d, Simulation %s = %d' % (t, mp[w.name], got, w.name, trace[w.name][t]))
+            term = env[mp[w.name]]
+            # words a ROM's initial block leaves unassigned are x in Verilog: any filling may be observed
+            for fill in (-1, 0):
+                tt = term
+                for mname, (mw, msize, _) in mod.mems.items():
+                    maw = max(1, (msize - 1).bit_length())
+                    tt = z3.substitute(tt, (z3.Array('uninit_%s' % mname, z3.BitVecSort(maw), z3.BitVecSort(mw)),
+                                            z3.K(z3.BitVecSort(maw), z3.BitVecVal(fill & ((1 << mw) - 1), mw))))
+                got = z3.simplify(tt).as_long()
+                if got != trace[w.name][t]:
+                    bad.append('cycle %d: Verilog %s = %d%s, Simulation %s = %d' % (
+                        t, mp[w.name], got, ' (an uninitialised ROM word is read)' if fill else '', w.name, trace[w.name][t]))
+                    break
     return bool(bad), 'case=%r inputs=%r\n%s\n--- emitted module ---\n%s' % (case, mv, '\n'.join(bad[:8]), text[:1500])
